@@ -575,13 +575,18 @@ def _popped_level(ctx, rule):
     return c10.r18_popped_level_read_once(ctx, rule)
 
 
+def _memo_key(ctx, rule):
+    # seed C11-o: completions cached under the loop level instead of the level asked for
+    from . import c10
+    return c10.r2_memo_key(ctx, rule)
+
 def rules(tier):
     return [('C11.R1', r1_formula_skeleton), ('C11.R2', r2_ln_offset), ('C11.R3', r3_cp_count), ('C11.R5', r5_length_domain),
             ('C11.R6', lambda c, r: c07.r5_strip_discipline(c, r, only=_OMEN_READERS, floor=4)),
             ('C11.R7', lambda c, r: c07.r3_record_layout(c, r, scope='omen')),
             ('C11.R8', lambda c, r: c07.r2_encoding_agreement(c, r, file_filter=lambda fid: fid[0] == 'Omen' and fid[-1] in
                                                                ('IP.level', 'CP.level', 'LN.level', 'alphabet.txt'), floor=6)),
-            ('C11.R9', _passes), ('C11.R10', r10_omen_loaders_complete), ('C11.R11', _cursor), ('C11.R12', _zero_budget), ('C11.R13', _no_shared_defaults), ('C11.R14', _window_slices), ('C11.R15', _popped_level)]
+            ('C11.R9', _passes), ('C11.R10', r10_omen_loaders_complete), ('C11.R11', _cursor), ('C11.R12', _zero_budget), ('C11.R13', _no_shared_defaults), ('C11.R14', _window_slices), ('C11.R15', _popped_level), ('C11.R16', _memo_key)]
 
 
 META = {
